@@ -127,6 +127,18 @@ def judge_fitted(c, rec):
             rec.violation(fam + "/from_dict-to_dict-differs", c, "from_dict(to_dict()).to_dict() differs from to_dict()")
     except Exception as e:
         rec.violation("%s/dict-roundtrip-raises/%s" % (fam, exc_bucket(e) or type(e).__name__), c, "%s: %s" % (type(e).__name__, short(e, 200)))
+    # a stored document is loaded more than once in real use (one dict object, many loads): every load gives the same model
+    try:
+        d = m.to_dict()
+        loads = [Model.from_dict(d), Model.from_dict(d)]
+        for nm, mm in zip(("first", "second"), loads):
+            if json.loads(mm.to_json()) != json.loads(js):
+                rec.violation(fam + "/repeated-load-differs", c, "%s from_dict() of one to_dict() document does not serialise to the stored document" % nm)
+        if b.get("noise_seed", 0) % 2:
+            m2 = loads[1]  # the predictions below are then judged on the second load
+            cls.append("predicts-with=second-load-of-one-dict")
+    except Exception as e:
+        rec.violation("%s/repeated-load-raises/%s" % (fam, exc_bucket(e) or type(e).__name__), c, "%s: %s" % (type(e).__name__, short(e, 200)))
     # 3. timezone, warnings, disqualification
     if fam != "caltrack":
         if str(m2.baseline_timezone) != str(m.baseline_timezone):
